@@ -20,6 +20,14 @@
 // reported number to lie in [must + negative may, must + positive may]; once
 // the program is quiescent the bracket collapses to equality with the model.
 //
+// Instruments may share a name (within one meter, and across the two
+// meters): instruments of one meter that differ in kind or number type are
+// different instruments (duplicate registration is only warned about), each
+// is reported as its own metric and conservation holds per instrument. A
+// reported metric is attributed to an instrument by (scope, name, number type
+// Sum[int64] / Sum[float64], IsMonotonic), which tells the four generated
+// kinds apart.
+//
 // Two sub-checks share generator pieces, execution and oracle:
 // sum_conservation (concurrent programs, each executed twice) and
 // sequential_model (one goroutine: every bracket is an equality).
@@ -76,6 +84,13 @@ import (
 type Inst struct {
 	Kind  string `json:"kind"`  // i64c | f64c | i64u | f64u (counter / up-down counter)
 	Scope int    `json:"scope"` // which of two meters creates it
+	// Name is the instrument name; empty = "inst<index>" (unique). Instruments
+	// may SHARE a name, within one meter too: those that differ in kind or
+	// number type are different instruments (the SDK logs a duplicate
+	// registration warning and reports each as its own metric of that name);
+	// those with the same (scope, name, kind) are handles of ONE instrument and
+	// feed one stream (the model merges them).
+	Name string `json:"name,omitempty"`
 }
 
 // Reader is one reader of the provider.
@@ -178,12 +193,38 @@ var (
 // genWorld draws instruments, the attribute-set pool and the readers.
 func genWorld(t *rapid.T) Case {
 	c := Case{}
-	ni := rapid.IntRange(1, 4).Draw(t, "insts")
-	for i := 0; i < ni; i++ {
-		c.Insts = append(c.Insts, Inst{
-			Kind:  rapid.SampledFrom([]string{"i64c", "f64c", "i64u", "f64u"}).Draw(t, "inst_kind"),
-			Scope: rapid.IntRange(0, 1).Draw(t, "scope"),
-		})
+	kinds := []string{"i64c", "f64c", "i64u", "f64u"}
+	if rapid.IntRange(0, 3).Draw(t, "same_name") == 0 {
+		// 2..4 instruments of ONE meter are all called the same and differ in
+		// kind / number type (generated order = registration order); optionally
+		// the other meter has instruments of that name too, and one instrument
+		// has a name of its own.
+		sc := rapid.IntRange(0, 1).Draw(t, "shared_scope")
+		n := rapid.IntRange(2, 4).Draw(t, "shared_n")
+		for _, k := range rapid.SliceOfNDistinct(rapid.SampledFrom(kinds), n, n, rapid.ID[string]).Draw(t, "shared_kinds") {
+			c.Insts = append(c.Insts, Inst{Kind: k, Scope: sc, Name: "shared"})
+		}
+		if rapid.Bool().Draw(t, "shared_in_other_scope") {
+			m := rapid.IntRange(1, 2).Draw(t, "shared_other_n")
+			for _, k := range rapid.SliceOfNDistinct(rapid.SampledFrom(kinds), m, m, rapid.ID[string]).Draw(t, "shared_other_kinds") {
+				c.Insts = append(c.Insts, Inst{Kind: k, Scope: 1 - sc, Name: "shared"})
+			}
+		}
+		if rapid.IntRange(0, 3).Draw(t, "plus_second_handle") == 0 {
+			// the same (scope, name, kind) once more: a second handle of one instrument
+			c.Insts = append(c.Insts, c.Insts[rapid.IntRange(0, len(c.Insts)-1).Draw(t, "handle_of")])
+		}
+		if rapid.Bool().Draw(t, "plus_unique") {
+			c.Insts = append(c.Insts, Inst{Kind: rapid.SampledFrom(kinds).Draw(t, "inst_kind"), Scope: rapid.IntRange(0, 1).Draw(t, "scope")})
+		}
+	} else {
+		ni := rapid.IntRange(1, 4).Draw(t, "insts")
+		for i := 0; i < ni; i++ {
+			c.Insts = append(c.Insts, Inst{
+				Kind:  rapid.SampledFrom(kinds).Draw(t, "inst_kind"),
+				Scope: rapid.IntRange(0, 1).Draw(t, "scope"),
+			})
+		}
 	}
 	ns := rapid.IntRange(1, 6).Draw(t, "sets")
 	for _, u := range rapid.SliceOfNDistinct(rapid.IntRange(0, len(universe)-1), ns, ns, rapid.ID[int]).Draw(t, "set_ids") {
@@ -352,9 +393,48 @@ func genSeq(t *rapid.T) Case {
 func isCounter(in Inst) bool { return !strings.HasSuffix(in.Kind, "u") }
 func isFloat(in Inst) bool   { return strings.HasPrefix(in.Kind, "f") }
 
+// instName is the harness' label of instrument i (also its default metric name).
 func instName(i int) string  { return fmt.Sprintf("inst%d", i) }
 func scopeName(s int) string { return fmt.Sprintf("c02.scope%d", s&1) }
 func idx(i, n int) int       { return ((i % n) + n) % n }
+
+// metricName is the name instrument i is created with.
+func metricName(c Case, i int) string {
+	if c.Insts[i].Name != "" {
+		return c.Insts[i].Name
+	}
+	return instName(i)
+}
+
+// ident is what identifies an instrument in a collection: the four generated
+// kinds differ in number type and / or monotonicity.
+type ident struct {
+	scope, name string
+	float, mono bool
+}
+
+func identOf(c Case, i int) ident {
+	in := c.Insts[i]
+	return ident{scopeName(in.Scope), metricName(c, i), isFloat(in), isCounter(in)}
+}
+
+// canonical maps every instrument to the first one with the same identity
+// (same scope, name and kind: handles of one SDK instrument).
+func canonical(c Case) []int {
+	first := map[ident]int{}
+	out := make([]int, len(c.Insts))
+	for i := range c.Insts {
+		id := identOf(c, i)
+		if j, ok := first[id]; ok {
+			out[i] = j
+			continue
+		}
+		first[id] = i
+		out[i] = i
+	}
+	return out
+}
+
 func sleepFor(d int) time.Duration {
 	switch d {
 	case 1:
@@ -430,7 +510,8 @@ func (s stream) String() string { return instName(s.inst) + s.set }
 type addRec struct {
 	id         int
 	start, end int64
-	inst       int
+	inst       int // canonical instrument (stream owner)
+	raw        int // instrument handle the Add goes through
 	set        string
 	units      int64
 	done       bool
@@ -464,11 +545,12 @@ type callRec struct {
 }
 
 type world struct {
-	c          Case
-	clock      vk.Clock
-	instByName map[string]int
-	mu         sync.Mutex
-	cons       []*consumer
+	c       Case
+	clock   vk.Clock
+	byIdent map[ident]int // (scope, name, number type, monotonic) -> canonical instrument
+	byName  map[string][]int
+	mu      sync.Mutex
+	cons    []*consumer
 }
 
 // extract deep-copies what a collection reported into harness-owned data and
@@ -481,9 +563,33 @@ func (w *world) extract(rm *metricdata.ResourceMetrics, reader int) (map[stream]
 	seenInst := map[int]bool{}
 	for _, sm := range rm.ScopeMetrics {
 		for _, m := range sm.Metrics {
-			ii, ok := w.instByName[m.Name]
-			if !ok {
+			// which instrument is it? (scope, name, number type, monotonicity)
+			named := w.byName[m.Name]
+			if len(named) == 0 {
 				bad("unknown_metric", "reader %d reported a metric %q that no instrument of the program has", reader, m.Name)
+				continue
+			}
+			id := ident{scope: sm.Scope.Name, name: m.Name}
+			switch d := m.Data.(type) {
+			case metricdata.Sum[int64]:
+				id.mono = d.IsMonotonic
+			case metricdata.Sum[float64]:
+				id.float, id.mono = true, d.IsMonotonic
+			default:
+				bad("wrong_data_type", "reader %d reported %T for instrument %s", reader, m.Data, m.Name)
+				continue
+			}
+			ii, ok := w.byIdent[id]
+			switch {
+			case ok:
+			case len(named) == 1:
+				ii = named[0] // the only instrument of that name: say what is wrong with it below
+			default:
+				var have []string
+				for _, j := range named {
+					have = append(have, fmt.Sprintf("%s=%s in %s", instName(j), w.c.Insts[j].Kind, scopeName(w.c.Insts[j].Scope)))
+				}
+				bad("metric_matches_no_instrument", "reader %d reported metric %q under scope %q with float64=%v IsMonotonic=%v, which none of the instruments of that name is (%s)", reader, m.Name, sm.Scope.Name, id.float, id.mono, strings.Join(have, ", "))
 				continue
 			}
 			in := w.c.Insts[ii]
@@ -491,7 +597,7 @@ func (w *world) extract(rm *metricdata.ResourceMetrics, reader int) (map[stream]
 				bad("wrong_scope", "reader %d reported %s under scope %q, created by meter %q", reader, m.Name, sm.Scope.Name, scopeName(in.Scope))
 			}
 			if seenInst[ii] {
-				bad("duplicate_metric", "reader %d reported metric %s twice in one collection", reader, m.Name)
+				bad("duplicate_metric", "reader %d reported metric %s (%s, %s) twice in one collection", reader, m.Name, instName(ii), in.Kind)
 			}
 			seenInst[ii] = true
 			var temp metricdata.Temporality
@@ -688,7 +794,14 @@ func runOnce(c Case) ([]vk.Violation, map[string]bool) {
 	errs := &vk.ErrCapture{}
 	otel.SetErrorHandler(errs)
 
-	w := &world{c: c, instByName: map[string]int{}}
+	canon := canonical(c)
+	w := &world{c: c, byIdent: map[ident]int{}, byName: map[string][]int{}}
+	for ii := range c.Insts {
+		if canon[ii] == ii {
+			w.byIdent[identOf(c, ii)] = ii
+			w.byName[metricName(c, ii)] = append(w.byName[metricName(c, ii)], ii)
+		}
+	}
 	clock := &w.clock
 
 	// ---- provider, readers, instruments ----
@@ -735,8 +848,7 @@ func runOnce(c Case) ([]vk.Violation, map[string]bool) {
 	}
 	adders := make([]adder, len(c.Insts))
 	for ii, in := range c.Insts {
-		name := instName(ii)
-		w.instByName[name] = ii
+		name := metricName(c, ii)
 		if c.Lazy {
 			sc, kind := scopeName(in.Scope&1), in.Kind
 			adders[ii] = func(ctx context.Context, u int64, o ...metric.AddOption) {
@@ -834,7 +946,7 @@ func runOnce(c Case) ([]vk.Violation, map[string]bool) {
 	var adds []*addRec
 	newAdd := func(op Op, where string) *addRec {
 		ii := idx(op.I, len(c.Insts))
-		a := &addRec{id: len(adds), inst: ii, set: keys[idx(op.S, len(c.Sets))], units: units(op, c.Insts[ii]), where: where}
+		a := &addRec{id: len(adds), inst: canon[ii], raw: ii, set: keys[idx(op.S, len(c.Sets))], units: units(op, c.Insts[ii]), where: where}
 		adds = append(adds, a)
 		return a
 	}
@@ -891,7 +1003,7 @@ func runOnce(c Case) ([]vk.Violation, map[string]bool) {
 			o = []metric.AddOption{metric.WithAttributeSet(asets[si])}
 		}
 		a.start = clock.Tick()
-		adders[a.inst](ctx, a.units, o...)
+		adders[a.raw](ctx, a.units, o...)
 		a.end = clock.Tick()
 		a.done = true
 	}
@@ -1347,12 +1459,15 @@ func history(c Case, adds []*addRec, cons []*consumer, calls []*callRec, errs []
 		ls = append(ls, line{r.start, fmt.Sprintf("t=%d..%d %s -> %v", r.start, r.end, r.kind, r.err)})
 	}
 	sort.Slice(ls, func(i, j int) bool { return ls[i].t < ls[j].t })
-	out := make([]string, 0, len(ls)+len(errs))
+	out := make([]string, 0, len(ls)+len(errs)+len(c.Insts))
+	for i, in := range c.Insts {
+		out = append(out, fmt.Sprintf("%s = %s %q of meter %s", instName(i), in.Kind, metricName(c, i), scopeName(in.Scope)))
+	}
 	for _, l := range ls {
 		out = append(out, l.s)
 	}
 	if len(out) > 500 {
-		out = append(out[:250], out[len(out)-250:]...)
+		out = append(out[:250:250], out[len(out)-250:]...)
 	}
 	for _, e := range errs {
 		out = append(out, "otel.Handle: "+e.Error())
@@ -1418,6 +1533,26 @@ func run(c Case) ([]vk.Violation, vk.Info) {
 	for _, in := range c.Insts {
 		info.Class("instrument:" + in.Kind)
 	}
+	canon := canonical(c)
+	sameScope, bothScopes, alias := false, false, false
+	for i := range c.Insts {
+		alias = alias || canon[i] != i
+		for j := 0; j < i; j++ {
+			if canon[i] != i || canon[j] != j || metricName(c, i) != metricName(c, j) {
+				continue
+			}
+			if c.Insts[i].Scope&1 == c.Insts[j].Scope&1 {
+				sameScope = true
+			} else {
+				bothScopes = true
+			}
+		}
+	}
+	info.ClassIf(sameScope, "same_name_different_kind_in_one_meter")
+	info.ClassIf(bothScopes, "same_name_in_both_meters")
+	info.ClassIf(alias, "two_handles_of_one_instrument(same scope, name, kind)")
+	info.ClassIf(sameScope && c.Lazy, "same_name_instruments_obtained_lazily")
+	info.ClassIf(sameScope && c.SumView, "same_name_instruments_with_sum_view")
 	info.ClassIf(recorders >= 2, "two_or_more_recorders_in_a_phase")
 	info.ClassIf(nadds >= 100, "100_or_more_adds")
 	info.ClassIf(zero, "zero_value_add")
@@ -1473,7 +1608,7 @@ func TestSequentialModel(t *testing.T) {
 func TestSumConservation(t *testing.T) {
 	vk.Run(t, vk.Spec[Case]{
 		Property: "C02", Check: "sum_conservation",
-		Rule: "generated concurrent programs: 1-4 instruments (Int64/Float64 Counter/UpDownCounter, two meters), a pool of 1-6 near-identical attribute sets, 1-3 readers (ManualReader or PeriodicReader with a recording exporter and a 1 ms - 5 ms or 1 h interval; delta / cumulative / delta-for-counters temporality), 1-4 barrier-separated phases of 1-8 recorder goroutines (0-200 Adds of exact, pairwise distinct values, <= 1000 per program) and 0-3 collector goroutines (Collect on any reader, provider ForceFlush, sleeps) with generated schedule perturbations, a final Collect on manual readers, Shutdown (optionally racing further Adds) and late calls; each program is executed twice; " +
+		Rule: "generated concurrent programs: 1-4 instruments (Int64/Float64 Counter/UpDownCounter, two meters; in a quarter of the cases 2-4 instruments of one meter - and optionally 1-2 of the other meter - share ONE name and differ in kind / number type), a pool of 1-6 near-identical attribute sets, 1-3 readers (ManualReader or PeriodicReader with a recording exporter and a 1 ms - 5 ms or 1 h interval; delta / cumulative / delta-for-counters temporality), 1-4 barrier-separated phases of 1-8 recorder goroutines (0-200 Adds of exact, pairwise distinct values, <= 1000 per program) and 0-3 collector goroutines (Collect on any reader, provider ForceFlush, sleeps) with generated schedule perturbations, a final Collect on manual readers, Shutdown (optionally racing further Adds) and late calls; each program is executed twice; " +
 			"non-trivial = >= 1 collection (Collect / ForceFlush by logical-clock overlap, or an export whose collection window contains an Add) ran concurrently with >= 1 Add and >= 2 collections happened; distinct = distinct case encodings",
 		Quick: 300, Thorough: 3000,
 		Gen: gen, Run: run, Repeat: 100, Known: known,
